@@ -83,7 +83,7 @@ def check(tier, seed):
         ties = 0
         batch = []
         for _ in range(150 if tier == 'quick' else 6000):
-            kind = rng.choice(['long_two', 'long_two', 'noise', 'one_ubx', 'two_ubx', 'two_nmea', 'mixed', 'bad_ubx', 'three', 'late', 'ubx_filler', 'silence', 'near_nmea', 'near_nmea', 'bad_then_two', 'bad_then_two', 'burst_two', 'burst_two'])
+            kind = rng.choice(['long_two', 'long_two', 'noise', 'one_ubx', 'two_ubx', 'two_nmea', 'mixed', 'bad_ubx', 'three', 'late', 'ubx_filler', 'silence', 'near_nmea', 'near_nmea', 'bad_then_two', 'bad_then_two', 'burst_two', 'burst_two', 'ubx_text', 'ubx_text'])
             fr = lambda: G.frame(*rng.choice(G.CIDS), G.rand_payload(rng, rng.choice([0, 2, 8, 30])))
             nm = lambda good=True: G.nmea(bytes(rng.choice(b'GPRMC,0123456789.AN') for _ in range(rng.randrange(3, 30))), good=good)
             junk = lambda: G.rand_junk(rng)[0]
@@ -98,6 +98,10 @@ def check(tier, seed):
                 s = fill() + two[0]() + fill() + two[1]()
             elif kind == 'two_ubx':
                 s = fr() + fr()
+            elif kind == 'ubx_text':
+                # two well-formed UBX frames whose payloads are text: complete, checksum-valid NMEA sentences
+                tx = lambda: G.frame(*rng.choice(G.CIDS), rng.choice([b'', b'\r\n', b'xx']) + nm() + rng.choice([b'', nm(False)]))
+                s = rng.choice([lambda: tx() + fr(), lambda: fr() + tx(), lambda: tx() + junk() + fr() + fr(), lambda: tx() + tx()])()
             elif kind == 'burst_two':
                 # everything becomes readable at one instant (a USB packet, an epoch's burst): two or three frames / sentences
                 s = b''.join(rng.choice([(fr, fr), (nm, nm), (fr, fr, fr), (nm, fr, nm)]))() if False else b''.join(f_() for f_ in rng.choice([(fr, fr), (nm, nm), (fr, fr, fr), (nm, fr, nm)]))
@@ -171,7 +175,7 @@ def check(tier, seed):
             if r not in (True, None, False):
                 res.violation('scan() returned an unexpected value', {'property': 'C18', 'input': desc, 'result': impl}, 'c18-type')
             total = sum(dt for _, dt in events)
-            if kind in ('two_ubx', 'two_nmea', 'ubx_filler', 'three', 'bad_then_two', 'long_two', 'burst_two') and total + 1 < interval and r is not True:
+            if kind in ('two_ubx', 'two_nmea', 'ubx_filler', 'three', 'bad_then_two', 'long_two', 'burst_two', 'ubx_text') and total + 1 < interval and r is not True:
                 res.violation('two well-formed frames of one protocol arrived within the interval but scan() did not return True', {'property': 'C18', 'input': desc, 'result': impl}, 'c18-live|' + kind)
             if r is not True and t > interval + max([idle] + [dt for _, dt in events]):
                 res.violation('scan() returned later than interval + one read timeout', {'property': 'C18', 'input': desc, 'result': impl}, 'c18-time')
